@@ -750,11 +750,14 @@ def lockstep_requests(spec, tr, max_steps=None):
             else:
                 if j == a and dirty:
                     continue
-                toks = [f"pos={R(last['angular position'][j - 1])} speed={R(last['angular speed'][j - 1])}",
-                        f"acc={R(last['angular acceleration'][j - 1])} mtorque={R(mot['torque'][j - 1])} pwm={R(mot['pwm'][j - 1])}",
-                        f"locked={1 if tr['locked'][j - 1] else 0} fl0={R(mot['load torque'][0])} "
-                        # the instant with the code's own unit factor, so that exact hits of a timer edge given in the same unit stay exact
-                        f"t={R(F(tr['time_raw'][j]) * code_factor('Time', tr['time_units'][j]))} dt={R(dt)}"]
+                try:
+                    toks = [f"pos={R(last['angular position'][j - 1])} speed={R(last['angular speed'][j - 1])}",
+                            f"acc={R(last['angular acceleration'][j - 1])} mtorque={R(mot['torque'][j - 1])} pwm={R(mot['pwm'][j - 1])}",
+                            f"locked={1 if tr['locked'][j - 1] else 0} fl0={R(mot['load torque'][0])} "
+                            # the instant with the code's own unit factor, so that exact hits of a timer edge given in the same unit stay exact
+                            f"t={R(F(tr['time_raw'][j]) * code_factor('Time', tr['time_units'][j]))} dt={R(dt)}"]
+                except (ValueError, OverflowError, IndexError, KeyError, TypeError):
+                    continue       # a sample that is not a finite number of the right kind: the oracles report it
             out.append((j, 's step ' + base + ' ' + ' '.join(toks)))
         dirty = False
         first_op = False
